@@ -104,8 +104,11 @@ type Link struct {
 	faultDone   bool
 	LastErr     error
 	ShortReads  int // reads that returned fewer bytes than asked while more were pending
-	MaxAsk      int
-	SeekPast    int // bytes a Seek went beyond the end of the data
+	// Hook, when set, runs at the start of every Read with the 1-based call number: whatever
+	// it does happens "while this Read is in progress" (another caller running meanwhile)
+	Hook     func(call int)
+	MaxAsk   int
+	SeekPast int // bytes a Seek went beyond the end of the data
 }
 
 func NewLink(data []byte, sched Schedule, fault *ReadFault) *Link {
@@ -126,6 +129,9 @@ func (l *Link) Deliverable() int { return l.limit() }
 func (l *Link) Read(p []byte) (int, error) {
 	idx := l.Reads
 	l.Reads++
+	if l.Hook != nil {
+		l.Hook(idx + 1)
+	}
 	if len(p) > l.MaxAsk {
 		l.MaxAsk = len(p)
 	}
